@@ -82,6 +82,19 @@ func (in *objIndex) UnmarshalJSON(data []byte) error {
 		return err
 	}
 
+	// index must be usable whatever is missing in the data
+	if tmp.Fields == nil {
+		tmp.Fields = make(map[string]*fieldIndex)
+	}
+	if tmp.ObjectIds == nil {
+		tmp.ObjectIds = make(map[uint64]string)
+	}
+	for fn, fi := range tmp.Fields {
+		if fi == nil {
+			return fmt.Errorf("%w: null index for field %s", ErrMalformedSchema, fn)
+		}
+	}
+
 	in.i = 0
 	in.Fields = tmp.Fields
 	in.ObjectIds = tmp.ObjectIds
